@@ -31,10 +31,15 @@ def strategy(tier, shard=0, nshards=1):
         name = names[draw(st.integers(0, 10**6)) % len(names)]
         dom = M.c08_domain(name)
         mag = draw(st.sampled_from([gen.MAG, gen.MAG, gen.MAG_SMALL, st.floats(1e3, 1e6), st.floats(1e-3, 1e-2)]))
-        x, y, kind = draw(gen.vector_pair(dom, nmax=64, mag=mag))
+        x, y, kind = draw(gen.vector_pair(dom, nmax=64, mag=mag, allow_huge=False))
         n = len(x)
         zk = draw(st.sampled_from(["indep", "indep", "between", "x", "y", "allzero", "chain", "chain"]))
-        if kind == "sparse":
+        if kind == "very_long" and draw(st.booleans()):
+            z = gen._fix_domain(dom, [2 * b - a for a, b in zip(x, y)], 1.0)  # collinear continuation x, y, z
+            if dom in ("NN", "NN0", "P", "PROB") and min(z) < 0:
+                z = [abs(v) for v in z]
+            zk = "collinear"
+        elif kind == "sparse":
             z = draw(st.lists(st.one_of(st.just(0.0), st.just(0.0), gen.elem(dom, mag)), min_size=n, max_size=n))
             zk = "sparse"
         elif zk == "indep":
